@@ -98,6 +98,37 @@ func returnsInCase(start *ssa.BasicBlock, stopAt map[*ssa.BasicBlock]bool) []*ss
 	return out
 }
 
+// caseResults: the values a case of a format switch returns. With one return per case that is the returned value; with a result
+// variable ( switch { case A: r = x; case B: r = y }; return r ) the single return hands back a phi, and the case's share of it are
+// the edges that come out of the case's own region.
+func caseResults(start *ssa.BasicBlock) []ssa.Value {
+	var out []ssa.Value
+	for _, r := range returnsInCase(start, nil) {
+		if len(res(r)) != 1 {
+			continue
+		}
+		out = append(out, regionShare(res(r)[0], start, 4)...)
+	}
+	return out
+}
+
+func regionShare(v ssa.Value, start *ssa.BasicBlock, d int) []ssa.Value {
+	ph, ok := v.(*ssa.Phi)
+	if !ok || d == 0 || start.Dominates(ph.Block()) {
+		return []ssa.Value{v} // no merge, or a merge inside the case itself
+	}
+	var out []ssa.Value
+	for k, e := range ph.Edges {
+		pred := ph.Block().Preds[k]
+		if start.Dominates(pred) {
+			out = append(out, e)
+		} else if inner, isPhi := e.(*ssa.Phi); isPhi && !start.Dominates(inner.Block()) {
+			out = append(out, regionShare(inner, start, d-1)...)
+		}
+	}
+	return out
+}
+
 func convertTypes(p *core.Program) (map[string]types.Type, map[string]string, *ssa.Function) {
 	f := p.Func("characteristic", "(*Characteristic).convert")
 	if f == nil {
@@ -107,17 +138,16 @@ func convertTypes(p *core.Program) (map[string]types.Type, map[string]string, *s
 	problems := map[string]string{}
 	for fmtStr, blk := range formatSwitch(f) {
 		var t types.Type
-		for _, r := range returnsInCase(blk, nil) {
-			if len(res(r)) != 1 {
-				continue
-			}
-			for _, s := range core.Sources(res(r)[0]) {
+		for _, rv := range caseResults(blk) {
+			for _, s := range core.Sources(rv) {
 				if s == ssa.Value(f.Params[1]) {
 					problems[fmtStr] = "returns its input unchanged"
 					continue
 				}
 				var st types.Type
-				if mi, ok := res(r)[0].(*ssa.MakeInterface); ok {
+				if mi, ok := rv.(*ssa.MakeInterface); ok {
+					st = mi.X.Type()
+				} else if mi, ok := s.(*ssa.MakeInterface); ok {
 					st = mi.X.Type()
 				} else {
 					st = s.Type()
@@ -495,12 +525,38 @@ func c12r4(c *core.Ctx) {
 		if !ok || len(res(r)) != 1 {
 			return
 		}
-		mi, ok := res(r)[0].(*ssa.MakeInterface)
-		if !ok {
-			return
+		// the float boxed for the return: directly, or on an edge of the result variable's phi
+		var boxed []*ssa.MakeInterface
+		var gather func(v ssa.Value, d int)
+		gather = func(v ssa.Value, d int) {
+			switch x := v.(type) {
+			case *ssa.MakeInterface:
+				boxed = append(boxed, x)
+			case *ssa.Phi:
+				if d > 0 {
+					for _, e := range x.Edges {
+						gather(e, d-1)
+					}
+				}
+			}
 		}
-		b, ok := mi.X.Type().Underlying().(*types.Basic)
-		if !ok || b.Info()&types.IsFloat == 0 {
+		gather(res(r)[0], 4)
+		var mi *ssa.MakeInterface
+		for _, m := range boxed {
+			if b, ok := m.X.Type().Underlying().(*types.Basic); ok && b.Info()&types.IsFloat != 0 {
+				for _, s := range core.Sources(m.X) {
+					if call, ok := s.(*ssa.Call); ok && call.Call.StaticCallee() != nil && !core.InModule(call.Call.StaticCallee()) {
+						mi = m
+					}
+					if ex, ok := s.(*ssa.Extract); ok {
+						if call, ok := ex.Tuple.(*ssa.Call); ok && call.Call.StaticCallee() != nil && !core.InModule(call.Call.StaticCallee()) {
+							mi = m
+						}
+					}
+				}
+			}
+		}
+		if mi == nil {
 			return
 		}
 		// a float that comes from a conversion call of a peer value
@@ -532,7 +588,30 @@ func c12r4(c *core.Ctx) {
 			s, isK := core.ConstInt(call.Call.Args[1])
 			return isK && s == 0
 		})
-		c.Check(core.Dominated(r, notNaN) && core.Dominated(r, notInf), "finite-float@"+fname(f), r.Pos(), "the converted float is returned only on the negative branches of IsNaN and IsInf(.,0)",
+		// the converted value reaches the return only over edges behind both negative branches (the return itself may be shared with
+		// the paths that substitute another value: a helper with several returns, inlined, ends in one merged return)
+		finite := true
+		var visit func(v ssa.Value, at ssa.Instruction, d int)
+		visit = func(v ssa.Value, at ssa.Instruction, d int) {
+			if d == 0 {
+				return
+			}
+			switch x := v.(type) {
+			case *ssa.Phi:
+				for k, e := range x.Edges {
+					pred := x.Block().Preds[k]
+					visit(e, pred.Instrs[len(pred.Instrs)-1], d-1)
+				}
+			case *ssa.MakeInterface:
+				visit(x.X, at, d-1)
+			default:
+				if v == src && !(core.Dominated(at, notNaN) && core.Dominated(at, notInf)) {
+					finite = false
+				}
+			}
+		}
+		visit(res(r)[0], r, 8)
+		c.Check(finite, "finite-float@"+fname(f), r.Pos(), "the converted float is returned only on the negative branches of IsNaN and IsInf(.,0)",
 			"a float parsed from the peer's value can be returned although it is NaN or infinite (\"NaN\", \"Inf\", \"1e999\"): the clamp cannot bring it into range and encoding/json refuses to encode the attribute database")
 	})
 	if n == 0 {
